@@ -121,6 +121,11 @@ void FrameSet::handleMatch(const internal::RangePatternMatch* match, Status* ok)
             ok->setError(ss.str());
         }
 
+        // The direction always comes from start/end
+        if (step < 0) {
+            step = -step;
+        }
+
         char mod = match->stepMod[0];
 
         switch (mod) {
@@ -134,7 +139,13 @@ void FrameSet::handleMatch(const internal::RangePatternMatch* match, Status* ok)
             // This approach will add excessive amounts of singe
             // range elements. They could be compressed into chunks
             Frame skip = start;
-            Range aRange(start, end, 1);
+            // Handle descending frame ranges, like 10-1y3
+            long inc = 1;
+            if (start > end) {
+                inc = -1;
+                step = -step;
+            }
+            Range aRange(start, end, inc);
             RangeIterator it = aRange.iterValues();
             Frame val;
             while (it.next()) {
